@@ -296,14 +296,18 @@ func (r Request) Capture(v string) (kind, expr string, ok bool) {
 	return "", "", false
 }
 
-// HasCaptureExpr reports whether some var/<kind> postprocessor of the request uses expr.
+// HasCaptureExpr reports whether some var/<kind> postprocessor of the request uses
+// expr (for var/header: captures that header, whatever the modifiers and letter case).
 func (r Request) HasCaptureExpr(kind, expr string) bool {
 	for _, p := range r.Posts {
 		if p.Kind != kind {
 			continue
 		}
 		for _, m := range p.Map {
-			if m.Expr == expr || strings.HasPrefix(m.Expr, expr+"|") {
+			if m.Expr == expr {
+				return true
+			}
+			if kind == scengen.PostHeader && strings.EqualFold(strings.TrimSpace(strings.SplitN(m.Expr, "|", 2)[0]), expr) {
 				return true
 			}
 		}
